@@ -163,8 +163,8 @@ CHECKS = {
     },
     "C02": {
         "extra_props": ["Props/Comb_F.v"],
-        "modules": ["p_c02m", "p_c02c"],
-        "rule": "library futures: the C13 scenario family (MapFuture/FlatMapFuture over environment futures; done-callbacks that may raise, "
+        "modules": ["p_c02m", "p_c02c", "p_c02p"],
+        "rule": "p_c02p: the C08 scenario family on PollExecutor plus 1-3 user done-callbacks per poll future (monitor only); library futures: the C13 scenario family (MapFuture/FlatMapFuture over environment futures; done-callbacks that may raise, "
                 "added before/after completion; 0-2 cancels) plus 0-3 threads blocked in result()/exception()/wait()/as_completed() with a "
                 "virtual timeout; combinator outputs: the C14/C15 family plus 1-3 waiters; every history replayed on Model/MapFut.v / "
                 "Model/Comb.v; monitor: outcome seen by every callback = final outcome, callbacks exactly once and only when done, cancel() "
@@ -226,10 +226,13 @@ CHECKS = {
                         "and is known finding P2; the set is proved exact relative to the snapshot (c08_descriptor_exact_at_snapshot)"],
     },
     "C18": {
-        "module": "p_c18",
+        "modules": ["p_c18", "p_c18m", "p_c18p", "p_c18r"],
         "extra_props": ["Props/Comb_F.v"],
         "gen_lemmas": [],
-        "rule": "seeded scenarios on real stacks: depth 1-4 over the seven layer kinds, base sync or the real ThreadPoolExecutor; each of the "
+        "rule": "p_c18m / p_c18p / p_c18r: the lockstep scenario families of C02+C13 (raising fn / error_fn / done-callbacks, several callbacks "
+                "per future), C08 (raising poll and cancel functions, concurrent cancels) and C05 (raising policy methods and callables) replayed "
+                "on Model/MapFut.v, Model/Poll.v, Model/Retry.v - a dying thread or an escaping exception is an event those machines reject - "
+                "with the fault-related verdicts of their monitors; p_c18: seeded scenarios on real stacks: depth 1-4 over the seven layer kinds, base sync or the real ThreadPoolExecutor; each of the "
                 "nine user-code call sites (callable, map fn, error fn, poll fn, cancel fn, policy should_retry / sleep_time, throttle count "
                 "callable, done-callback) raises at its first / second / third / every call with probability 0.4 each; 1-4 submissions, an "
                 "optional cancel(); x {random, sticky, PCT} schedules; monitor: every future ends with its own callable's outcome or the "
